@@ -289,6 +289,27 @@ Theorem C10_upload_reader_pinned_refuted : forall detect param name kind content
 Proof. exact upload_reader_pinned_refuted. Qed.
 Print Assumptions C10_upload_reader_pinned_refuted.
 
+(* SetFileReader with a reader handed over at a position past 0 (the caller has read a header
+   first): every attempt uploads what was left at hand-over, whether or not the content given
+   to the multipart writer shows Seek; this is what file_read gives for such a file *)
+Theorem C10_upload_reader_position_respected : forall seek_visible s att,
+  reader_pass true seek_visible s att = rs_content s.
+Proof. exact reader_position_respected. Qed.
+Print Assumptions C10_upload_reader_position_respected.
+
+Theorem C10_upload_reader_position_is_file_read : forall seek_visible param name k s used att,
+  k = FSeekReader \/ k = FSeekNoClose ->
+  file_read att (mfile_at param name k s used) = Some (reader_pass true seek_visible s att).
+Proof. exact reader_position_is_file_read. Qed.
+Print Assumptions C10_upload_reader_position_is_file_read.
+
+(* before 9ce4104 the multipart writer sought such a reader to offset 0 on a retry *)
+Theorem C10_upload_reader_seek_zero_refuted :
+  reader_pass false true (mkSrc (bs "HDR:payload") 4) 0 = bs "payload" /\
+  reader_pass false true (mkSrc (bs "HDR:payload") 4) 1 = bs "HDR:payload".
+Proof. exact reader_seek_zero_refuted. Qed.
+Print Assumptions C10_upload_reader_seek_zero_refuted.
+
 (* the pinned middlewares (client cookies appended on every pass) do not have the property:
    two-attempt witness *)
 Theorem C10_attempts_identical_pinned_refuted :
